@@ -25,6 +25,9 @@ func init() {
 		Mutant{Name: "c04-keep-hex-const", Prop: "C04", File: ra, Old: "a.TAIList.Len > 112", New: "a.TAIList.Len > 0x70", Keep: true, Why: "same bound, hex literal"},
 		Mutant{Name: "c04-keep-operand-order", Prop: "C04", File: ra, Old: "a.TAIList.Len < 7 || a.TAIList.Len > 112", New: "112 < a.TAIList.GetLen() || 7 > a.TAIList.Len", Keep: true, Why: "same accepted set, different syntax"},
 		Mutant{Name: "c04-keep-negated-form", Prop: "C04", File: ra, Old: "a.TAIList.Len < 7 || a.TAIList.Len > 112", New: "!(a.TAIList.Len >= 7 && a.TAIList.Len <= 112)", Keep: true, Why: "De Morgan form of the same guard"},
+		Mutant{Name: "c04-keep-modular-guard", Prop: "C04", File: "nasMessage/NAS_PDUSessionEstablishmentAccept.go", Old: "a.PDUAddress.Len != 5 && a.PDUAddress.Len != 9 && a.PDUAddress.Len != 13", New: "a.PDUAddress.Len < 5 || a.PDUAddress.Len > 13 || (a.PDUAddress.Len-5)%4 != 0", Keep: true, Why: "same accepted set {5,9,13} written with modular arithmetic"},
+		Mutant{Name: "c04-modular-guard-wrong-step", Prop: "C04", File: "nasMessage/NAS_PDUSessionEstablishmentAccept.go", Old: "a.PDUAddress.Len != 5 && a.PDUAddress.Len != 9 && a.PDUAddress.Len != 13", New: "a.PDUAddress.Len < 5 || a.PDUAddress.Len > 13 || (a.PDUAddress.Len-5)%8 != 0",
+			Expect: "table.len-bounds / nasMessage.(*PDUSessionEstablishmentAccept).DecodePDUSessionEstablishmentAccept / PDUAddress", Why: "step 8 instead of 4: legal length 9 rejected"},
 		// ---- C02
 		Mutant{Name: "c02-setlen-overalloc", Prop: "C02", File: "nasType/NAS_ABBA.go", Old: "a.Buffer = make([]uint8, a.Len)", New: "a.Buffer = make([]uint8, a.Len+1)",
 			Expect: "codec.dual.buffer-exact", Why: "decoder allocates one octet more than declared: consumes the next element's identifier"},
